@@ -103,6 +103,10 @@ SniffLaw == /\ SniffKind(Trimmed(BinDoc(ToWire(val, DT)), SniffTrimBoth)) = "bin
             /\ SniffKind(Trimmed(Not(val, RT), SniffTrimBoth)) = "not"
             /\ Same(SniffParseWith(Not(val, RT), DT, RT, SniffTrimBoth), val)
             /\ Same(SniffParseWith(<<32, 9>> \o Not(val, RT), DT, RT, SniffTrimBoth), val)
+\* the run-length form of a document says the same about raw newlines and about its length as the document itself
+RLAgrees == LET d == Not(val, RT) w == WireBytes IN
+            /\ NoRawNewlineRL(ToRL(d)) = NoRawNewline(d) /\ LenRL(ToRL(d)) = Len(d)
+            /\ NoRawNewlineRL(ToRL(w)) = NoRawNewline(w) /\ LenRL(ToRL(w)) = Len(w)
 \* vacuity guard for NotNoNewline: some value does contain a newline in a string
 HasNewlineString == \E k \in 1..Len(WireBytes) : WireBytes[k] = 10
 ====
